@@ -17,5 +17,6 @@ HARNESSES = {
           bounded="infoset sizes {2,2} / {2}; entries any f64 in [0,1]; threshold any non-NaN f64"),
         H("c18_truncate_survivors", "lib", "C18.K.truncate.survivors",
           bounded="infoset sizes {2,2} / {2}; entries any f64 in [0,1]; threshold any non-NaN f64"),
+        H("c18_truncate_survivors_min", "lib", "C18.K.truncate.survivors", bounded="one infoset of 2 actions"),
     ],
 }
